@@ -163,7 +163,7 @@ define_function(telfhash)
   tlsh_final(tlsh, (const unsigned char*) sstr->str, sstr->len, 0);
 
   const char* telfhash = tlsh_get_hash(tlsh, true);
-  elf->telfhash = yr_strdup(telfhash);  // cache it
+  elf->telfhash = telfhash ? yr_strdup(telfhash) : NULL;  // cache it
   if (!elf->telfhash)
     goto cleanup;
 
